@@ -88,6 +88,7 @@ type c02Run struct {
 	spurious []string
 	inflight []string // per sender: the item kind the harness handed to it ("ev" | "wm" | "bar <id>")
 	failNext bool     // the fake job fails the next acknowledgement
+	dbFail   atomic.Bool // the next file the DKV saves fails (db.Checkpoint fails)
 	deploys  int
 	ckIDs    map[uint64]bool // checkpoint ids written to the DKV in this deployment
 	active   []bool // senders that have not sent SourceComplete in this deployment
@@ -306,6 +307,30 @@ func (j *c02Job) OperatorCheckpointComplete(ctx context.Context, req *snapshotpb
 }
 
 var errC02JobUnreachable = fmt.Errorf("verif: job unreachable")
+var errC02Storage = fmt.Errorf("verif: storage unavailable")
+
+// c02FailFS wraps the deployment's file system: while armed, the next Save fails once
+type c02FailFS struct {
+	storage.FileSystem
+	r *c02Run
+}
+
+type c02FailFile struct {
+	storage.File
+	r *c02Run
+}
+
+func (f *c02FailFS) New(path string) storage.File {
+	return &c02FailFile{File: f.FileSystem.New(path), r: f.r}
+}
+
+func (f *c02FailFile) Save() error {
+	if f.r.dbFail.CompareAndSwap(true, false) {
+		f.r.addLog("@dbfail") // position of the failure among the consumer's observations
+		return errC02Storage
+	}
+	return f.File.Save()
+}
 
 func (r *c02Run) deployDir() string { return fmt.Sprintf("%s/dep%d", r.dir, r.deploys) }
 
@@ -333,14 +358,18 @@ func c02Impl(c lib.Case) []string {
 	defer c02Serial.Unlock()
 	slog.SetDefault(slog.New(slog.NewTextHandler(io.Discard, nil))) // the operator logs every deploy/stop
 	hdr := strings.Fields(c.Header)
-	k, b := 1, 1
+	kd, b, z := 1, 1, 0 // deployed runners, handler batch size, callers that are not deployed runners
 	if len(hdr) >= 4 {
-		k, _ = strconv.Atoi(hdr[2])
+		kd, _ = strconv.Atoi(hdr[2])
 		b, _ = strconv.Atoi(hdr[3])
 	}
-	if k < 1 || k > 16 {
+	if len(hdr) >= 5 {
+		z, _ = strconv.Atoi(hdr[4])
+	}
+	if kd < 1 || kd > 16 || z < 0 || z > 4 {
 		return []string{"bad-header"}
 	}
+	k := kd + z // all callers: senders kd..k-1 are not among the SourceRunnerIds
 	dir, err := os.MkdirTemp("", "c02-")
 	if err != nil {
 		return []string{"tmpdir " + err.Error()}
@@ -376,12 +405,21 @@ func c02Impl(c lib.Case) []string {
 		cancel()
 	}()
 	deploy := func() error {
-		return op.HandleDeploy(ctx, &workerpb.DeployOperatorRequest{
+		if err := op.HandleDeploy(ctx, &workerpb.DeployOperatorRequest{
 			Operators:       []*jobpb.NodeIdentity{{Id: c02OpID, Host: "h"}},
-			SourceRunnerIds: srIDs,
+			SourceRunnerIds: srIDs[:kd],
 			KeyGroupCount:   256,
 			StorageLocation: r.deployDir(),
-		}, &embedded.RecordingSink{})
+		}, &embedded.RecordingSink{}); err != nil {
+			return err
+		}
+		// same (still empty) storage, behind a wrapper that can make db.Checkpoint fail
+		fs, err := storage.NewFileSystemFromLocation(storage.Join(r.deployDir(), c02OpID))
+		if err != nil {
+			return err
+		}
+		op.VerifUseFileSystem(&c02FailFS{FileSystem: fs, r: r})
+		return nil
 	}
 	if err := deploy(); err != nil {
 		return []string{"deploy " + err.Error()}
@@ -588,7 +626,26 @@ func c02Impl(c lib.Case) []string {
 		r.status[i] = '-'
 		parts := []string{"ok"}
 		log := r.takeLog()
-		if herr != nil && strings.Contains(herr.Error(), errC02JobUnreachable.Error()) && strings.HasPrefix(r.inflight[i], "bar ") {
+		dbFailed := herr != nil && strings.Contains(herr.Error(), errC02Storage.Error()) && strings.HasPrefix(r.inflight[i], "bar ")
+		if dbFailed {
+			// db.Checkpoint could not write: the handler returned before calling the job; the DKV's checkpoint list
+			// nevertheless holds the id already
+			id := strings.TrimPrefix(r.inflight[i], "bar ")
+			parts = append(parts, "reg:"+id)
+			for n := range log {
+				if log[n] == "@dbfail" {
+					log[n] = "ackfail:" + id
+				}
+			}
+			n, _ := strconv.ParseUint(id, 10, 64)
+			r.mu.Lock()
+			r.failNext = false
+			if r.ckIDs == nil {
+				r.ckIDs = map[uint64]bool{}
+			}
+			r.ckIDs[n] = true
+			r.mu.Unlock()
+		} else if herr != nil && strings.Contains(herr.Error(), errC02JobUnreachable.Error()) && strings.HasPrefix(r.inflight[i], "bar ") {
 			parts = append(parts, "reg:"+strings.TrimPrefix(r.inflight[i], "bar ")) // the error is the failed ack, reported in the log
 		} else if herr != nil {
 			if m := c02Mismatch.FindStringSubmatch(herr.Error()); m != nil {
@@ -596,15 +653,19 @@ func c02Impl(c lib.Case) []string {
 			} else {
 				parts = append(parts, "err:"+c02Err(herr))
 			}
-		} else if strings.HasPrefix(r.inflight[i], "bar ") {
+		} else if strings.HasPrefix(r.inflight[i], "bar ") && (i < kd || func() bool { r.mu.Lock(); defer r.mu.Unlock(); return r.snaps > snapsBefore }()) {
+			// (the barrier of a caller that is no deployed runner is accepted without being registered for anybody —
+			// unless it re-runs the completion of a record left complete by a failed ack)
 			parts = append(parts, "reg:"+strings.TrimPrefix(r.inflight[i], "bar "))
 		}
 		parts = append(parts, log...)
 		if r.inflight[i] == "done" && herr == nil {
 			parts = append(parts, "completed")
-			r.active[i] = false
+			if i < kd {
+				r.active[i] = false
+			}
 			any := false
-			for _, a := range r.active {
+			for _, a := range r.active[:kd] {
 				any = any || a
 			}
 			if !any && !syncConsumerFor(200*time.Millisecond) {
@@ -613,7 +674,7 @@ func c02Impl(c lib.Case) []string {
 			}
 		}
 		r.mu.Lock()
-		completed := r.snaps > snapsBefore
+		completed := r.snaps > snapsBefore || dbFailed
 		r.mu.Unlock()
 		if completed && withRel {
 			var rel []string
@@ -665,7 +726,7 @@ func c02Impl(c lib.Case) []string {
 			case len(f) == 2 && f[0] == "go":
 				x, err := strconv.Atoi(f[1])
 				res = "noop"
-				if err == nil && x >= 0 && x < k && len(r.queue) == 0 && x != r.held && r.status[x] == 'p' && len(r.rest[x]) == 0 &&
+				if err == nil && x >= 0 && x < kd && len(r.queue) == 0 && x != r.held && r.status[x] == 'p' && len(r.rest[x]) == 0 &&
 					(r.inflight[x] == "ev" || r.inflight[x] == "wm") {
 					select {
 					case r.gate[x] <- struct{}{}:
@@ -754,7 +815,7 @@ func c02Impl(c lib.Case) []string {
 					break
 				}
 				res = "consumer-held"
-				if len(r.blockedS) == 0 && r.status[i] == '-' {
+				if len(r.blockedS) == 0 && r.status[i] == '-' && i < kd {
 					select {
 					case r.work[i] <- batch:
 					case <-time.After(c02Wait):
@@ -794,7 +855,7 @@ func c02Impl(c lib.Case) []string {
 		hold := false
 		if len(f) == 2 && f[0] == "gohold" {
 			f[0] = "go"
-			if i, err := strconv.Atoi(f[1]); err == nil && i >= 0 && i < k && r.status[i] == 'p' && strings.HasPrefix(r.inflight[i], "bar ") && len(r.rest[i]) == 0 {
+			if i, err := strconv.Atoi(f[1]); err == nil && i >= 0 && i < k && i < kd && r.status[i] == 'p' && strings.HasPrefix(r.inflight[i], "bar ") && len(r.rest[i]) == 0 {
 				hold = true
 			}
 		}
@@ -930,6 +991,9 @@ func c02Impl(c lib.Case) []string {
 			} else {
 				res = strings.Join(log, " ")
 			}
+		case len(f) == 1 && f[0] == "failckpt":
+			r.dbFail.Store(true)
+			res = "armed"
 		case len(f) == 1 && f[0] == "failnext":
 			r.mu.Lock()
 			r.failNext = true
@@ -1059,7 +1123,8 @@ func c02Err(err error) string {
 // senders are idle / at the gate / parked (never calls the code under test)
 
 type c02Sim struct {
-	k       int
+	k       int // all callers
+	kd      int // deployed runners (0 = all)
 	scripts [][]string
 	pos     []int
 	status  []byte
@@ -1075,14 +1140,24 @@ type c02Sim struct {
 }
 
 // completes reports whether sender i stands at the gate with the barrier that completes the checkpoint
+func (s *c02Sim) deployed() int {
+	if s.kd == 0 {
+		return s.k
+	}
+	return s.kd
+}
+
 func (s *c02Sim) completes(i int) bool {
+	if i >= s.deployed() {
+		return false
+	}
 	it := strings.Fields(s.item[i])
 	if s.status[i] != 'p' || len(it) != 2 || it[0] != "bar" {
 		return false
 	}
 	id, _ := strconv.Atoi(it[1])
 	if !s.inCk {
-		return s.k == 1
+		return s.deployed() == 1
 	}
 	if id != s.ckID {
 		return false
@@ -1139,12 +1214,12 @@ func (s *c02Sim) run1(i int) bool {
 	if it[0] == "done" {
 		if s.active == nil {
 			s.active = map[int]bool{}
-			for j := 0; j < s.k; j++ {
+			for j := 0; j < s.deployed(); j++ {
 				s.active[j] = true
 			}
 		}
 		delete(s.active, i)
-		s.gone = len(s.active) == 0
+		s.gone = len(s.active) == 0 && i < s.deployed()
 		return true
 	}
 	if it[0] != "bar" {
@@ -1153,7 +1228,7 @@ func (s *c02Sim) run1(i int) bool {
 	id, _ := strconv.Atoi(it[1])
 	if !s.inCk {
 		s.inCk, s.ckID, s.missing = true, id, map[int]bool{}
-		for j := 0; j < s.k; j++ {
+		for j := 0; j < s.deployed(); j++ {
 			s.missing[j] = true
 		}
 	}
@@ -1177,7 +1252,7 @@ func (s *c02Sim) run1(i int) bool {
 
 var c02Keys = []string{"61", "62", "6162", "00ff"}
 
-func c02Scripts(r *lib.Rng, k int, tier string) [][]string {
+func c02Scripts(r *lib.Rng, k int, kd int, tier string) [][]string {
 	nb := r.Range(1, 3)
 	maxEv := 4
 	if tier == "thorough" {
@@ -1223,7 +1298,7 @@ func c02Scripts(r *lib.Rng, k int, tier string) [][]string {
 				s = append(s, fmt.Sprintf("bar %d", id))
 			}
 		}
-		if k > 1 && i < k-1 && r.Chance(1, 10) {
+		if kd > 1 && i < kd-1 && r.Chance(1, 10) {
 			s = append(s, "done") // bounded source finished (never all senders: the operator would stop itself)
 		}
 		scripts[i] = s
@@ -1231,8 +1306,8 @@ func c02Scripts(r *lib.Rng, k int, tier string) [][]string {
 	return scripts
 }
 
-func c02Schedule(r *lib.Rng, k int, scripts [][]string) []string {
-	sim := &c02Sim{k: k, scripts: scripts, pos: make([]int, k), status: make([]byte, k), item: make([]string, k), batch: make([]int, k)}
+func c02Schedule(r *lib.Rng, k int, kd int, scripts [][]string) []string {
+	sim := &c02Sim{k: k, kd: kd, scripts: scripts, pos: make([]int, k), status: make([]byte, k), item: make([]string, k), batch: make([]int, k)}
 	for i := range sim.status {
 		sim.status[i] = '-'
 	}
@@ -1355,6 +1430,9 @@ func c02Schedule(r *lib.Rng, k int, scripts [][]string) []string {
 			if sim.stale || r.Chance(1, 2) {
 				ops = append(ops, "redeploy")
 				sim.redeploy()
+			} else if r.Chance(1, 3) {
+				ops = append(ops, "failckpt")
+				sim.fail = true
 			} else {
 				ops = append(ops, "failnext")
 				sim.fail = true
@@ -1470,8 +1548,16 @@ func propC02() *lib.Prop {
 			}
 			k := r.Range(1, 4)
 			b := r.Range(1, 5)
-			scripts := c02Scripts(r, k, tier)
-			return c02Case(k, b, c02Schedule(r, k, scripts)...)
+			z := 0
+			if r.Chance(1, 4) {
+				z = 1 // a caller that is not among the deployed runners (runner of a previous deployment still alive)
+			}
+			scripts := c02Scripts(r, k+z, k, tier)
+			c := c02Case(k, b, c02Schedule(r, k+z, k, scripts)...)
+			if z > 0 {
+				c.Header = fmt.Sprintf("M C02 %d %d %d", k, b, z)
+			}
+			return c
 		},
 		Impl: c02Impl,
 		Fixed: func(tier string) []lib.Case {
@@ -1489,6 +1575,16 @@ func propC02() *lib.Prop {
 				// failed ack: the completed record stays, other ids are rejected, a repeated barrier must not panic (D43), redeploy recovers
 				c02Case(1, 2, "send 0 ev 61 1 0", "go 0", "failnext", "send 0 bar 1", "go 0", "state", "send 0 ev 61 2 0", "go 0", "send 0 bar 2", "go 0",
 					"send 0 bar 1", "go 0", "state", "failnext", "send 0 bar 3", "go 0", "state", "redeploy", "state", "send 0 bar 4", "go 0", "tick", "state"),
+				// db.Checkpoint fails: no snapshot, no ack, the completed record stays; repeated barrier completes (id already in
+				// the DKV's list: dup); redeploy recovers
+				c02Case(2, 2, "send 0 ev 61 1 0", "go 0", "failckpt", "send 0 bar 1", "go 0", "send 0 ev 61 2 0", "send 1 bar 1", "go 1", "state", "go 0",
+					"send 1 bar 2", "go 1", "send 1 bar 1", "go 1", "state", "failckpt", "failnext", "redeploy", "send 0 bar 3", "go 0", "send 1 bar 3", "go 1", "state",
+					"send 0 bar 4", "go 0", "send 1 bar 4", "go 1", "state"),
+				// a caller that is no deployed runner: handled, parked while a checkpoint is aligned, never counted; its stale
+				// barrier starts a record that rejects the runners' barriers (D56); its watermark becomes an upstream entry
+				lib.Case{Header: "M C02 2 1 1", Ops: []string{"send 2 ev 61 5 0", "go 2", "send 0 bar 1", "go 0", "send 2 ev 61 6 0", "state", "send 1 bar 1", "go 1", "go 2",
+					"send 2 bar 7", "go 2", "send 0 bar 2", "go 0", "send 2 wm 9", "go 2", "state", "redeploy", "state", "sendb 2 wm:2 ev:61:7:3 bar:1 done",
+					"go 2", "go 2", "go 2", "go 2", "send 0 wm 9", "go 0", "send 1 wm 9", "go 1", "tick", "state"}},
 				// events waiting in the batcher and a call past alignment survive a redeploy (as in the code)
 				c02Case(2, 3, "send 0 ev 61 1 0", "go 0", "send 1 ev 62 2 0", "redeploy", "go 1", "send 0 bar 1", "go 0", "send 1 bar 1", "go 1", "state"),
 				// SourceComplete flushes; the last one stops the operator
